@@ -56,7 +56,7 @@ def showW (w : Waiter) : String :=
 
 def showState (s : State) : String :=
   let head := s!"cur={s.cur} st={showB s.starving} nacq={s.nacq} ht={showB s.htick} gcreq={s.gcReq} " ++
-    s!"gct={s.gcTimers} wl={showNats s.waitlist} oq={showNats s.overQuota} ph={s.phantom} err={showB s.err.isSome}"
+    s!"gct={s.gcTimers} wl={showNats s.waitlist} oq={showNats s.overQuota} err={showB s.err.isSome}"
   let ws := (s.waiters.toArray.qsort (fun a b => a.id < b.id)).toList
   let hs := (s.holders.toArray.qsort (fun a b => a.req < b.req)).toList
   let ps := (s.prunes.toArray.qsort (fun a b => a.id < b.id)).toList
